@@ -63,6 +63,7 @@ type c10Machine struct {
 
 func newC10Machine(bg *[65536]uint8) *c10Machine {
 	m := &c10Machine{cpu: &z80.CPU{}, mem: obs.NewMem(bg), io: &obs.IO{}}
+	m.mem.Limit = 1000000 // deterministic watchdog
 	m.cpu.Memory = m.mem
 	m.cpu.IO = m.io
 	return m
